@@ -136,6 +136,8 @@ def check(run, prog, tier):
     run.rule("C02-C", "Lindblad tensor equals the GKSL generator (TA)", minimum=1)
     run.rule("C02-D", "rotating-wave bookkeeping", minimum=10)
     run.rule("C02-E", "no in-place update of the caller's state", minimum=14)
+    run.rule("C02-G", "the Hamiltonian matrix is read through its basis-managed property by the routine that uses it "
+                      "(no representation kept on the propagator between calls)", minimum=2)
     run.rule("C02-F", "pure-dephasing factors are derived from the time step in force (derived-state "
                       "freshness)", minimum=2)
 
@@ -160,7 +162,26 @@ def check(run, prog, tier):
     if nsv < 3:
         raise AnalysisError("only %d Taylor loops recognised in svpropagator (3 confirmed)" % nsv)
     _refinement_rule(run, prog)
-    from .. import fresh
+    from .. import fresh, unitflow
+    for q, holders in ((RDM, ("self.Hamiltonian", "Ham", "ham")), (SV, ("self.ham", "ham", "Ham"))):
+        pc = prog.cls(q)
+        cached = [x for x in unitflow.cached_managed_reads(prog, pc, managed=("data",), holders=holders) if x[3]]
+        # get_RWA_data() results kept on self count as well
+        for f_ in pc.methods.values():
+            for n_ in walk_no_nested(f_.node):
+                if isinstance(n_, ast.Assign) and isinstance(n_.value, ast.Call) and call_name(n_.value) == "get_RWA_data":
+                    for t_ in n_.targets:
+                        if isinstance(t_, ast.Attribute) and norm(t_.value) == "self":
+                            cached.append((t_.attr, f_, n_, ["(any later call)"]))
+        run.obligation("C02-G", pc.name, not cached, key="no-cached-representation",
+                       message="%s keeps a representation of the Hamiltonian on itself: %s; the managed property returns "
+                               "the matrix in the basis current at that moment, a later propagation in another basis "
+                               "context pairs it with a state in a different basis" % (
+                                   pc.name, ["self.%s = %s (in %s, used in %s)" % (a, norm(n.value)[:40], sf.short.split(".")[-1],
+                                                                                 [getattr(l, "short", l).split(".")[-1] for l in ld][:3])
+                                             for a, sf, n, ld in cached[:3]]),
+                       loc=cached[0][1].loc(cached[0][2]) if cached else pc.module.relpath,
+                       sample={"class": pc.name, "holders": list(holders)})
     r = fresh.check(run, "C02-F", prog, cls, "_BOOT_DEPH", "pure dephasing")
     if "dt" not in r["inputs"] or not r["derived"]:
         raise AnalysisError("_BOOT_DEPH no longer derives its factors from self.dt: %s" % r)
